@@ -78,6 +78,15 @@ func (s *Store) refuse(class, msg string) error {
 	return errors.New(msg)
 }
 
+// sentinel returns a documented sentinel error of the storage interface: as is, or - with ErrStyle "wrapped" - wrapped
+// with context the way storages commonly do (fmt.Errorf("...: %w", err)); callers must match it with errors.Is.
+func (s *Store) sentinel(err error) error {
+	if s.Policy.ErrStyle == "wrapped" {
+		return fmt.Errorf("storage: %w", err)
+	}
+	return err
+}
+
 // ErrStyles are the values of StorePolicy.ErrStyle.
 var ErrStyles = []string{"", "oidc", "wrapped", "server"}
 
@@ -674,7 +683,7 @@ func (s *Store) GetRefreshTokenInfo(ctx context.Context, clientID, token string)
 	defer s.mu.Unlock()
 	rt, ok := s.Refresh[token]
 	if !ok {
-		return "", "", op.ErrInvalidRefreshToken
+		return "", "", s.sentinel(op.ErrInvalidRefreshToken)
 	}
 	id := rt.Token
 	if s.Policy.RefreshIDs {
@@ -1148,7 +1157,7 @@ func (s *Store) storeDeviceAuthorization(ctx context.Context, clientID, deviceCo
 		return s.refuse("client", "client not found")
 	}
 	if _, ok := s.userCode[userCode]; ok {
-		return op.ErrDuplicateUserCode
+		return s.sentinel(op.ErrDuplicateUserCode)
 	}
 	s.Devices[deviceCode] = &DeviceEntry{DeviceCode: deviceCode, UserCode: userCode,
 		State: &op.DeviceAuthorizationState{ClientID: clientID, Scopes: slices.Clone(scopes), Expires: expires}}
